@@ -138,18 +138,25 @@ impl Prop for Order {
     const NAME: &'static str = "C03.order";
     const BYTES: usize = 96;
     fn gen(u: &mut Unstructured<'_>) -> arbitrary::Result<PairCase> {
-        let a = gen::inst(u, 1)?;
-        let b = gen::inst_near(u, a, 1)?;
+        // one case in eight may lie on the outermost days (the values are then built by
+        // arithmetic on an offset-carrying value, see obs::mk_dt_off_late)
+        let m = if u.coin(1, 8)? { 0 } else { 1 };
+        let a = if m == 0 && u.coin(1, 2)? { Inst { day: if u.coin(1, 2)? { cal::MAX_DAY } else { cal::MIN_DAY }, ns: gen::day_ns(u)? } } else { gen::inst(u, m)? };
+        let b = gen::inst_near(u, a, m)?;
         Ok(PairCase { a, b, oa: gen::offset(u)?, ob: gen::offset(u)? })
     }
     fn check(c: &PairCase, cx: &mut Cx) -> Verdict {
         if !c.a.valid() || !c.b.valid() || c.oa.abs() > 86_399 || c.ob.abs() > 86_399 {
             return Verdict::Skip("malformed case");
         }
-        if c.a.day < cal::MIN_DAY + 1 || c.a.day > cal::MAX_DAY - 1 || c.b.day < cal::MIN_DAY + 1 || c.b.day > cal::MAX_DAY - 1 {
-            return Verdict::Skip("on an outermost day of the range (set_offset undefined there)");
-        }
+        let edge = c.a.day < cal::MIN_DAY + 1 || c.a.day > cal::MAX_DAY - 1 || c.b.day < cal::MIN_DAY + 1 || c.b.day > cal::MAX_DAY - 1;
         let (ia, ib) = (c.a.i(), c.b.i());
+        if edge {
+            cx.nt("operand_on_an_outermost_day");
+            if !tl::representable(ia + c.oa as i128 * tl::NS) || !tl::representable(ib + c.ob as i128 * tl::NS) {
+                cx.nt("operand_whose_local_reading_is_not_representable");
+            }
+        }
         let delta = ia - ib;
         if c.oa != c.ob && delta.abs() < tl::DAY_NS {
             cx.nt("different_offsets_within_a_day");
@@ -168,9 +175,11 @@ impl Prop for Order {
         }
         let want = ia.cmp(&ib);
         let route = ((c.a.ns ^ c.b.ns ^ c.a.day) % 16) as u8;
+        let late = edge || route >= 13;
         let r = catch(|| {
-            let a = if route < 8 { mk_dt_route(ia, route).set_offset(Offset::Fixed(c.oa)) } else { mk_dt_off(ia, c.oa) };
-            let b = if route < 8 { mk_dt_route(ib, route / 2).set_offset(Offset::Fixed(c.ob)) } else { mk_dt_off(ib, c.ob) };
+            let a = if late { mk_dt_off_late(ia, c.oa) } else if route < 8 { mk_dt_route(ia, route).set_offset(Offset::Fixed(c.oa)) } else { mk_dt_off(ia, c.oa) };
+            let b = if late { mk_dt_off_late(ib, c.ob) } else if route < 8 { mk_dt_route(ib, route / 2).set_offset(Offset::Fixed(c.ob)) } else { mk_dt_off(ib, c.ob) };
+            let stamps = (a.timestamp(), b.timestamp());
             let since = [
                 sgn(a.years_since(&b)),
                 sgn(a.months_since(&b)),
@@ -182,13 +191,21 @@ impl Prop for Order {
                 sgn(a.micros_since(&b)),
                 sgn(a.nanos_since(&b)),
             ];
-            (a == b, a != b, a < b, a <= b, a > b, a >= b, a.cmp(&b), a.partial_cmp(&b), b.cmp(&a), since)
+            (a == b, a != b, a < b, a <= b, a > b, a >= b, a.cmp(&b), a.partial_cmp(&b), b.cmp(&a), since, stamps)
         });
-        let (eq, ne, lt, le, gt, ge, cmp, pcmp, rcmp, since) = match r {
+        let (eq, ne, lt, le, gt, ge, cmp, pcmp, rcmp, since, stamps) = match r {
             Ok(v) => v,
             Err(p) => return fail("c03.order_panic", "comparisons return", p.short()),
         };
         let what = format!("{} [{}] vs {} [{}]", fmt_instant(ia), c.oa, fmt_instant(ib), c.ob);
+        // timestamp() counts whole seconds: the instant floored to the second, whatever the
+        // sub-second part, the era and the offset
+        ensure_eq!(
+            "c03.timestamp_of_instant",
+            format!("timestamp() of both operands of {}", what),
+            ((ia.div_euclid(tl::NS) as i64) - tl::EPOCH_1970_S, (ib.div_euclid(tl::NS) as i64) - tl::EPOCH_1970_S),
+            stamps
+        );
         ensure_eq!("c03.eq", format!("== of {}", what), want == Ordering::Equal, eq);
         ensure_eq!("c03.ne", format!("!= of {}", what), want != Ordering::Equal, ne);
         ensure_eq!("c03.lt", format!("< of {}", what), want == Ordering::Less, lt);
